@@ -499,6 +499,12 @@ def work(task):
                 nq = len(qs)
                 primary = name in PRIMARY
                 pairs = plan_pairs(nq, tier, rng, primary)
+                #  focus queries of the spec (weighted measures on zero / tied link weights, the
+                #  visibility relations of series with missing samples): every ordered pair
+                foc = [i for i, q in enumerate(qs) if any(f in q.label for f in spec.focus)]
+                have = set(pairs)
+                focus_pairs = [(i, j) for i in foc for j in foc if (i, j) not in have]
+                pairs = pairs + focus_pairs
                 for (i, j) in pairs[part::nparts]:
                     eng.pair(qs[i], qs[j])
                 #  chains "q1 then everything else" (rotated so that every query comes early once)
@@ -521,6 +527,7 @@ def work(task):
                     if eng.skipped_methods:
                         out["skip"].append(f"{name}: methods without an argument pattern: {eng.skipped_methods}")
                     out["samples"].append({"spec": name, "queries": nq, "cold_pairs": len(pairs),
+                                           "focus_queries": len(foc),
                                            "chains": len(heads), "sequences": nseq,
                                            "example_pair": [qs[pairs[0][0]].label, qs[pairs[0][1]].label] if pairs else None})
     except Exception as e:                                          # noqa
@@ -566,7 +573,7 @@ def main():
                 tasks.append(("extra", replay.get("seed", args.seed)))
         else:
             tasks.append(("extra", args.seed))
-            for spec in REG.specs_for(args.tier, args.seed):
+            for spec in REG.specs_for(args.tier, args.seed, "C06"):
                 heavy = spec.name.split("/")[0].endswith("Network") or spec.name in ("VisibilityGraph",)
                 nparts = (2 if heavy else 1) if args.tier == "quick" else (8 if heavy else 1)
                 for p in range(nparts):
